@@ -177,7 +177,10 @@ def gen_case(rng, k, thorough=False):
                 pmin=float(10 ** rng.uniform(-3, 1)), pmax=float(10 ** rng.uniform(4, 7)), T=T, gases=gases,
                 ngauss=int(rng.integers(1, 9)), cia=[cia['pair']] if cia else [])
     kind = 'direct' if k % 4 == 3 else 'emission'
-    return dict(kind=kind, spec=spec, wn=wn, tables=tables, cia=cia, tclass=tclass, regime=regime)
+    c = dict(kind=kind, spec=spec, wn=wn, tables=tables, cia=cia, tclass=tclass, regime=regime)
+    if k % 8 == 6:
+        c['wn_dtype'] = 'int64' if (k // 8) % 2 == 0 else 'float32'      # the grid values are whole numbers
+    return c
 
 
 def install(c):
@@ -207,8 +210,12 @@ def observe(m):
 def run_impl(c):
     """build the real model and run it; returns everything observed"""
     with E.CacheState():
-        install(c)
-        return observe(E.build_model(c['kind'], dict(c['spec'])))
+        E.WN_DTYPE = c.get('wn_dtype')
+        try:
+            install(c)
+            return observe(E.build_model(c['kind'], dict(c['spec'])))
+        finally:
+            E.WN_DTYPE = None
 
 
 def pc_tokens():
@@ -221,6 +228,8 @@ def eval_case(ctx, c):
     kind = c['kind']
     small = dict(kind=kind, nlayers=spec['nlayers'], ngauss=spec['ngauss'], tclass=c.get('tclass'),
                  regime=c.get('regime'), cia=bool(c.get('cia')), nwn=len(c['wn']))
+    if c.get('wn_dtype'):
+        ctx.bucket('wavenumber-axis-dtype:' + c['wn_dtype'])
     try:
         o = run_impl(c)
     except Exception as e:
